@@ -397,8 +397,7 @@ inductive All₂ (R : α → α → Prop) : List α → List α → Prop where
 namespace Ord
 variable (O : Ord α)
 
-theorem forall2_of_find? {R : α → α → Prop} (hR : ∀ {x y}, O.dom x → O.dom y → R x y → O.same x y = true)
-    {l₁ l₂ : List α} (hd₁ : O.AllDom l₁) (hd₂ : O.AllDom l₂) (hs₁ : O.Sorted l₁) (hs₂ : O.Sorted l₂)
+theorem forall2_of_find? {R : α → α → Prop} {l₁ l₂ : List α} (hd₁ : O.AllDom l₁) (hd₂ : O.AllDom l₂) (hs₁ : O.Sorted l₁) (hs₂ : O.Sorted l₂)
     (h12 : ∀ x ∈ l₁, ∃ y, l₂.find? (O.same x) = some y ∧ R x y)
     (h21 : ∀ y ∈ l₂, ∃ x, l₁.find? (O.same y) = some x ∧ R x y) :
     All₂ R l₁ l₂ := by
